@@ -132,9 +132,13 @@ reg("C07", "proof",
         "assumed contract: np.sum of a boolean 2-D family along axis 1 is >= 0 and is 0 iff no element holds",
         "numpy.rint is round-half-to-even on exact reals; astype(int) truncates"],
     assumptions=["a valid left pixel carries a finite disparity; the window offset fits twice in the image (mask_border's precondition)"])
-other("C09", "frame of cv_masked proved: masking writes the cost volume and its validity mask only -- not the caller's disparity "
-      "grids nor the images (" + FRAME_NOTE + "); interval independence of the costs and final disparities inside the interval:",
-      trusted=FRAME_TRUSTED)
+other("C09", "right after the disparity step a pixel with a computable cost lies inside the sampled interval (postcondition "
+      "within_interval of WinnerTakesAll.to_disp, proved over symbolic datasets); the later steps keep a valid pixel between "
+      "valid disparities: refinement stays inside the pixel's interval (C06 obligations), the median filter puts a pixel between two "
+      "valid disparities of its window (C10), filling takes values between valid disparities of the map (C14); frame of cv_masked "
+      "proved: masking writes the cost volume and its validity mask only -- not the caller's disparity grids nor the images ("
+      + FRAME_NOTE + "); interval independence of the costs themselves (a two-run property of the cost computation) and "
+      "per-pixel grids:", trusted=FRAME_TRUSTED)
 reg("C10", "proof",
     "median: MedianFilter.median_filter proved for every image size and every odd filter size against the property -- NaN "
     "(invalid) pixels stay NaN, valid pixels closer to an edge than the radius keep their value, every other valid pixel is the "
